@@ -90,9 +90,53 @@ fn main() {
         "falsify" => {
             // falsify <pid> <tier|replay> <seed> <corpus|->   (extra inputs on stdin)
             let seed: u64 = args[4].parse().unwrap();
-            if !falsify::run(&args[2], &args[3], seed, args.get(5).map(|s| s.as_str()).unwrap_or("-")) {
-                eprintln!("no falsifier for {}", args[2]);
-                std::process::exit(2);
+            // The falsifier runs on its own thread; a watchdog turns 150 s without a single evaluation
+            // (a call of the real code that does not return) into a reported failure whose input is the
+            // case that was being evaluated, instead of a check that never ends.
+            let (pid, tier, corpus) = (args[2].clone(), args[3].clone(), args.get(5).cloned().unwrap_or_else(|| "-".into()));
+            let done = std::sync::Arc::new(std::sync::atomic::AtomicU64::new(0));
+            let d2 = done.clone();
+            std::thread::Builder::new()
+                .stack_size(256 << 20)
+                .spawn(move || {
+                    let ok = falsify::run(&pid, &tier, seed, &corpus);
+                    d2.store(if ok { 1 } else { 2 }, std::sync::atomic::Ordering::SeqCst);
+                })
+                .unwrap();
+            let (mut last, mut idle) = (0u64, 0u32);
+            loop {
+                std::thread::sleep(std::time::Duration::from_millis(200));
+                match done.load(std::sync::atomic::Ordering::SeqCst) {
+                    1 => break,
+                    2 => {
+                        eprintln!("no falsifier for {}", args[2]);
+                        std::process::exit(2);
+                    }
+                    _ => {}
+                }
+                let now = falsify::PROGRESS.load(std::sync::atomic::Ordering::Relaxed);
+                if now != last {
+                    last = now;
+                    idle = 0;
+                    continue;
+                }
+                idle += 1;
+                if idle >= 5 * 150 {
+                    let input = falsify::CURRENT
+                        .try_lock()
+                        .ok()
+                        .and_then(|g| g.as_ref().map(|c| c.to_json()))
+                        .unwrap_or_else(|| serde_json::json!({"kind": "hang", "after_evaluations": now}));
+                    println!(
+                        "{}",
+                        serde_json::json!({"fail": {"input": input, "observed": format!("the call has not returned for 150 s (after {} evaluations)", now), "required": "every call returns"}})
+                    );
+                    println!(
+                        "{}",
+                        serde_json::json!({"stats": {"evaluations": now, "distinct_nontrivial": 0, "failures": 1, "branches": {}, "samples": [], "exhaustive": false, "extra": {"watchdog": "fired"}}})
+                    );
+                    std::process::exit(0);
+                }
             }
         }
         _ => {
